@@ -40,6 +40,11 @@ func TestVerifDriver(t *testing.T) {
 		runC14(em, r)
 	case "C02":
 		runC02(em, r)
+	case "C03":
+		runC03Frontends(em, r)
+	case "C11W":
+		c11WebRounds = 3
+		runC06(em, r)
 	default:
 		t.Fatalf("unknown property %s", prop)
 	}
